@@ -537,17 +537,23 @@ class Interp(Engine):
             if func.key.endswith("swc_utils/base.py:traverse"):
                 from . import traverse_rule
 
-                return traverse_rule.model(self, args, kwargs, self.cur_frame)
+                # the client frame (invariant J reads it, ("local", ...) targets live in it) is the carrier's own frame,
+                # also when the call reaches swc_utils.traverse through the inlined wrappers Tree.traverse / Tree.Node.traverse
+                return traverse_rule.model(self, args, kwargs, getattr(self, "_traverse_client_frame", None) or self.cur_frame)
             if func.key.endswith(":Tree.traverse") or func.key.endswith(":Tree.Node.traverse"):
                 fr = Frame(parent=func.frame, globs=func.globs, func=func)
                 self.bind_params(func, args, kwargs, fr)
                 self.inline_stack.append(func.key)
                 saved = self.cur_frame
+                outer = getattr(self, "_traverse_client_frame", None)
+                if outer is None:
+                    self._traverse_client_frame = saved
                 try:
                     return self.run_body(func, fr)
                 finally:
                     self.inline_stack.pop()
                     self.cur_frame = saved
+                    self._traverse_client_frame = outer
         if func.key.endswith("swc_utils/base.py:traverse") and func.key != self.cur_key:
             cb = [kwargs.get("enter"), kwargs.get("leave")]
             if any(x is not None and not isinstance(x, Callback) for x in cb) and not (cc is not None and cc.options.get("modular_traverse_ok")):
